@@ -1,5 +1,253 @@
-(* Props/C14.v — PLACEHOLDER created by the check-writer for local testing only; to be replaced by the
-   real theorems of property C14. *)
-Example C14_placeholder : True.
-Proof. exact I. Qed.
-Print Assumptions C14_placeholder.
+(* Props/C14.v — generating a key into an existing keyring keeps every existing key.
+
+   Model: Model/Cli.v::cmd_gen_key is the REPAIRED commands.rs::gen_key (an existing file is opened for append; the
+   pre-repair code sent "\n" ++ key through the truncating OnDemandFile: Cli.gen_key_legacy, refuted below).
+   A HISTORY is a list of inputs (stdin line = key name, KESTREL_PASSWORD, --env-pass flag, the two 32-byte random
+   blocks: private key, salt) for successive `key generate -o F` runs; gen_history threads the file system through
+   the runs and is Some (final fs, key texts written) iff every run succeeded.  "For every initial state of F
+   (absent, empty, any bytes)" is the quantification over the initial file system l.
+
+   What is proved:
+     - one run: old content ++ "\n" ++ key text (or the key text alone when F was absent); no other path changes;
+     - any history: every earlier content of F is a byte PREFIX of every later content; exact content of F;
+     - the file reads back (`-k F`, the model of Keyring::parse_config) as the old entries followed by the generated
+       ones — first with abstract validators and the premise that the entries are well formed, then
+     - COMBINED with the real keyring code (Model/Keyring.v: lock_private_key, encode_public_key, the validators
+       EncodedPk/EncodedSk::try_from = pk_string_ok / sk_string_ok): every key of the history is accepted by the
+       validators, UNLOCKS with the password it was generated with to the private key drawn, and its public key
+       decodes to the matching X25519 key; and `-k F` reads back ks0 ++ the new keys.
+   Premises that remain (stated in the theorems): the UTF-8 codec is abstract with two laws (encoding is a monoid
+   morphism, decoding inverts encoding); random blocks are byte strings (bytes_ok); generated names contain no
+   newline and names / public keys are pairwise distinct (the property's "distinct names"; distinct public keys =
+   distinct private keys drawn); prims_bytes_ok (primitives return bytes; proved for the RFC instance:
+   KeyringFacts.rfc_prims_bytes_ok).  Not covered: a terminal (prompted passwords), real file-system errors. *)
+From Kestrel Require Import Bytes Outcome IO Prims.
+From Kestrel.Spec Require Import Base64.
+From Kestrel.Model Require Import KeyringText Cli CliStubs CliGlue.
+From Kestrel.Model Require Keyring.
+From Kestrel.Proofs Require Import KeyringRefine KeyringFacts CliFacts Combine2Gen.
+Local Open Scope N_scope.
+
+(* one successful `key generate -o F` *)
+Theorem C14_gen_preserves_prefix :
+  forall (P : prims) (lock : bytes -> bytes -> bytes -> text) (encode_pk : bytes -> text)
+         (utf8_decode : bytes -> option text) (utf8_encode : text -> bytes)
+         (w : world) (o : gen_opts) (sk salt : bytes) (F : text),
+  go_outfile o = Some F ->
+  is_success (status (cmd_gen_key P lock encode_pk utf8_decode utf8_encode w o sk salt)) = true ->
+  exists key_text : text,
+    gen_plan P lock encode_pk utf8_decode w o sk salt = inr key_text /\
+    fs_get (new_fs (cmd_gen_key P lock encode_pk utf8_decode utf8_encode w o sk salt)) F =
+      Some match fs_get (fs w) F with
+           | Some c0 => c0 ++ key_bytes_nl utf8_encode key_text
+           | None => key_bytes utf8_encode key_text
+           end /\
+    (forall q, q <> F -> fs_get (new_fs (cmd_gen_key P lock encode_pk utf8_decode utf8_encode w o sk salt)) q
+                         = fs_get (fs w) q) /\
+    stdout (cmd_gen_key P lock encode_pk utf8_decode utf8_encode w o sk salt) = [] /\
+    status (cmd_gen_key P lock encode_pk utf8_decode utf8_encode w o sk salt) = SOk.
+Proof. exact gen_preserves_prefix. Qed.
+Print Assumptions C14_gen_preserves_prefix.
+
+(* in particular the old content is a byte prefix of the new content *)
+Theorem C14_gen_extends :
+  forall (P : prims) (lock : bytes -> bytes -> bytes -> text) (encode_pk : bytes -> text)
+         (utf8_decode : bytes -> option text) (utf8_encode : text -> bytes)
+         (w : world) (o : gen_opts) (sk salt : bytes) (F : text) (c0 : bytes),
+  go_outfile o = Some F ->
+  is_success (status (cmd_gen_key P lock encode_pk utf8_decode utf8_encode w o sk salt)) = true ->
+  fs_get (fs w) F = Some c0 ->
+  exists c1, fs_get (new_fs (cmd_gen_key P lock encode_pk utf8_decode utf8_encode w o sk salt)) F = Some c1 /\
+             bprefix c0 c1.
+Proof. exact gen_extends. Qed.
+Print Assumptions C14_gen_extends.
+
+(* any history, cut anywhere: the content after the first part is a byte prefix of the final content *)
+Theorem C14_gen_history_prefix :
+  forall (P : prims) (lock : bytes -> bytes -> bytes -> text) (encode_pk : bytes -> text)
+         (utf8_decode : bytes -> option text) (utf8_encode : text -> bytes)
+         (F : text) (ins1 ins2 : list gen_input) (l l' : fsys) (ks : list text),
+  gen_history P lock encode_pk utf8_decode utf8_encode F l (ins1 ++ ins2) = Some (l', ks) ->
+  exists (l1 : fsys) (ks1 ks2 : list text),
+    gen_history P lock encode_pk utf8_decode utf8_encode F l ins1 = Some (l1, ks1) /\
+    gen_history P lock encode_pk utf8_decode utf8_encode F l1 ins2 = Some (l', ks2) /\
+    ks = ks1 ++ ks2 /\
+    (forall c1, fs_get l1 F = Some c1 -> exists c2, fs_get l' F = Some c2 /\ bprefix c1 c2).
+Proof. exact gen_history_prefix. Qed.
+Print Assumptions C14_gen_history_prefix.
+
+(* exact content of F after a history: prior content (if any) followed by "\n" ++ key text for each key; a file
+   created by the history starts with the first key text itself; no other path changes *)
+Theorem C14_gen_history_content :
+  forall (P : prims) (lock : bytes -> bytes -> bytes -> text) (encode_pk : bytes -> text)
+         (utf8_decode : bytes -> option text) (utf8_encode : text -> bytes)
+         (F : text) (ins : list gen_input) (l l' : fsys) (ks : list text),
+  gen_history P lock encode_pk utf8_decode utf8_encode F l ins = Some (l', ks) ->
+  fs_get l' F = history_content utf8_encode (fs_get l F) ks /\
+  (forall q, q <> F -> fs_get l' q = fs_get l q).
+Proof. exact gen_history_content. Qed.
+Print Assumptions C14_gen_history_content.
+
+(* reading back, abstract validators: existing keyring text t0 that parses to ks0 *)
+Theorem C14_gen_history_reads_back_existing :
+  forall (P : prims) (pk_ok sk_ok : text -> bool) (lock : bytes -> bytes -> bytes -> text) (encode_pk : bytes -> text)
+         (utf8_decode : bytes -> option text) (utf8_encode : text -> bytes),
+  (forall a b, utf8_encode (a ++ b) = utf8_encode a ++ utf8_encode b) ->
+  (forall t, utf8_decode (utf8_encode t) = Some t) ->
+  forall (F : text) (l : fsys) (ins : list gen_input) (l' : fsys) (es : list entry) (t0 : text) (ks0 : list entry)
+         (w : world),
+  fs_get l F = Some (utf8_encode t0) -> parse_config pk_ok sk_ok t0 = Ok ks0 ->
+  gen_history P lock encode_pk utf8_decode utf8_encode F l ins = Some (l', map entry_text es) ->
+  Forall (gen_entry_ok pk_ok sk_ok) es -> NoDup (map k_name (ks0 ++ es)) -> NoDup (map k_pub (ks0 ++ es)) ->
+  fs w = l' -> resolve_keyring pk_ok sk_ok utf8_decode w (Some F) = inr (ks0 ++ es).
+Proof.
+  intros P pk_ok sk_ok lock encode_pk utf8_decode utf8_encode.
+  exact (gen_history_reads_back_existing P pk_ok sk_ok (fun _ _ => Panic PUnwrap) lock (fun _ => Panic PUnwrap)
+           encode_pk (fun _ => true) utf8_decode utf8_encode).
+Qed.
+Print Assumptions C14_gen_history_reads_back_existing.
+
+(* F absent: it is created holding exactly the generated keys *)
+Theorem C14_gen_history_reads_back_fresh :
+  forall (P : prims) (pk_ok sk_ok : text -> bool) (lock : bytes -> bytes -> bytes -> text) (encode_pk : bytes -> text)
+         (utf8_decode : bytes -> option text) (utf8_encode : text -> bytes),
+  (forall a b, utf8_encode (a ++ b) = utf8_encode a ++ utf8_encode b) ->
+  (forall t, utf8_decode (utf8_encode t) = Some t) ->
+  forall (F : text) (l : fsys) (ins : list gen_input) (l' : fsys) (es : list entry) (w : world),
+  fs_get l F = None ->
+  gen_history P lock encode_pk utf8_decode utf8_encode F l ins = Some (l', map entry_text es) -> es <> [] ->
+  Forall (gen_entry_ok pk_ok sk_ok) es -> NoDup (map k_name es) -> NoDup (map k_pub es) ->
+  fs w = l' -> resolve_keyring pk_ok sk_ok utf8_decode w (Some F) = inr es.
+Proof.
+  intros P pk_ok sk_ok lock encode_pk utf8_decode utf8_encode.
+  exact (gen_history_reads_back_fresh P pk_ok sk_ok (fun _ _ => Panic PUnwrap) lock (fun _ => Panic PUnwrap)
+           encode_pk (fun _ => true) utf8_decode utf8_encode).
+Qed.
+Print Assumptions C14_gen_history_reads_back_fresh.
+
+(* F present but EMPTY: the result starts with a blank line and still reads back as the generated keys *)
+Theorem C14_gen_history_reads_back_empty :
+  forall (P : prims) (pk_ok sk_ok : text -> bool) (lock : bytes -> bytes -> bytes -> text) (encode_pk : bytes -> text)
+         (utf8_decode : bytes -> option text) (utf8_encode : text -> bytes),
+  (forall a b, utf8_encode (a ++ b) = utf8_encode a ++ utf8_encode b) ->
+  (forall t, utf8_decode (utf8_encode t) = Some t) ->
+  forall (F : text) (l : fsys) (ins : list gen_input) (l' : fsys) (es : list entry) (w : world),
+  fs_get l F = Some [] ->
+  gen_history P lock encode_pk utf8_decode utf8_encode F l ins = Some (l', map entry_text es) -> es <> [] ->
+  Forall (gen_entry_ok pk_ok sk_ok) es -> NoDup (map k_name es) -> NoDup (map k_pub es) ->
+  fs w = l' ->
+  fs_get l' F = Some (utf8_encode (c_nl :: keyring_text es)) /\
+  resolve_keyring pk_ok sk_ok utf8_decode w (Some F) = inr es.
+Proof.
+  intros P pk_ok sk_ok lock encode_pk utf8_decode utf8_encode.
+  exact (gen_history_reads_back_empty P pk_ok sk_ok (fun _ _ => Panic PUnwrap) lock (fun _ => Panic PUnwrap)
+           encode_pk (fun _ => true) utf8_decode utf8_encode).
+Qed.
+Print Assumptions C14_gen_history_reads_back_empty.
+
+(* keyring.rs level (Model/Keyring.v), one key appended to ANY accepted keyring text: the text parses to the old
+   entries followed by the new one, whose private key unlocks with the password given and whose public key decodes
+   to the matching X25519 public key *)
+Theorem C14_generated_keys_usable :
+  forall (P : prims), aead_ok P -> hash_ok P -> Keyring.prims_bytes_ok P ->
+  forall (t0 : text) (ks0 : list entry) (name : text) (sk : bytes) (pw : bytes) (salt : bytes) (txt epk : text),
+  gen_name_ok name -> length sk = 32%nat -> bytes_ok sk -> length salt = 32%nat -> bytes_ok salt ->
+  parse_config Keyring.pk_string_ok Keyring.sk_string_ok t0 = Ok ks0 ->
+  Keyring.gen_key_text P name sk pw salt = Ok txt ->
+  Keyring.encode_public_key P (dh_pub P sk) = Ok epk ->
+  ~ In name (map k_name ks0) -> ~ In epk (map k_pub ks0) ->
+  exists esk : text,
+    parse_config Keyring.pk_string_ok Keyring.sk_string_ok (t0 ++ [c_nl] ++ txt)
+      = Ok (ks0 ++ [mk_entry name epk (Some esk)]) /\
+    Keyring.unlock_private_key P esk pw = Ok sk /\
+    Keyring.decode_public_key P epk = Ok (dh_pub P sk) /\
+    Keyring.extract_pub P esk pw = Ok (s_pub ++ s_sp_eq_sp ++ epk).
+Proof. exact generated_keys_usable. Qed.
+Print Assumptions C14_generated_keys_usable.
+
+(* COMBINATION — the CLI with the real keyring code (k_lock / k_encode_pk = Keyring.lock_private_key /
+   encode_public_key), any history into a file that held a keyring text t0 parsing (real validators) to ks0 — the
+   empty text parses to []: there is one entry per command, in order; entry i was generated with the password of
+   KESTREL_PASSWORD of run i, is accepted by the validators, unlocks with THAT password to the private key drawn in
+   run i, and its public key decodes to the X25519 public key of that private key; F holds t0 followed by
+   "\n" ++ entry text for each; and if the names contain no newline and names and public keys are pairwise distinct
+   (old ones included), `-k F` reads back ks0 ++ the new entries. *)
+Theorem C14_history_all_keys_usable_existing :
+  forall (P : prims), aead_ok P -> hash_ok P -> Keyring.prims_bytes_ok P ->
+  forall (utf8_decode : bytes -> option text) (utf8_encode : text -> bytes),
+  (forall a b, utf8_encode (a ++ b) = utf8_encode a ++ utf8_encode b) ->
+  (forall t, utf8_decode (utf8_encode t) = Some t) ->
+  forall (F : text) (l : fsys) (ins : list gen_input) (l' : fsys) (ks : list text) (t0 : text) (ks0 : list entry)
+         (w : world),
+  fs_get l F = Some (utf8_encode t0) ->
+  parse_config Keyring.pk_string_ok Keyring.sk_string_ok t0 = Ok ks0 ->
+  gen_history P (k_lock P) (k_encode_pk P) utf8_decode utf8_encode F l ins = Some (l', ks) ->
+  Forall (fun i => bytes_ok (gi_sk i) /\ bytes_ok (gi_salt i)) ins ->
+  fs w = l' ->
+  exists es : list entry, ks = map entry_text es /\
+    Forall2 (fun (i : gen_input) (e : entry) => exists pw : bytes,
+        (if gi_env_pass i then gi_env_password i else None) = Some pw /\ length (gi_sk i) = 32%nat /\
+        exists esk : text,
+          k_pub e = b64_encode (Keyring.pk_blob P (dh_pub P (gi_sk i))) /\ k_priv e = Some esk /\
+          Keyring.pk_string_ok (k_pub e) = true /\ val_ok (k_pub e) /\
+          Keyring.sk_string_ok esk = true /\ val_ok esk /\
+          Keyring.unlock_private_key P esk pw = Ok (gi_sk i) /\
+          Keyring.decode_public_key P (k_pub e) = Ok (dh_pub P (gi_sk i)) /\
+          valid_key_name (k_name e) = true /\ trim (k_name e) = k_name e) ins es /\
+    fs_get l' F = Some (utf8_encode (t0 ++ flat_map (fun e => c_nl :: entry_text e) es)) /\
+    (Forall (fun e => ~ In c_nl (k_name e)) es ->
+     NoDup (map k_name (ks0 ++ es)) -> NoDup (map k_pub (ks0 ++ es)) ->
+     resolve_keyring Keyring.pk_string_ok Keyring.sk_string_ok utf8_decode w (Some F) = inr (ks0 ++ es)).
+Proof. exact gen_history_all_keys_usable_existing. Qed.
+Print Assumptions C14_history_all_keys_usable_existing.
+
+(* the same when F did not exist *)
+Theorem C14_history_all_keys_usable_fresh :
+  forall (P : prims), aead_ok P -> hash_ok P -> Keyring.prims_bytes_ok P ->
+  forall (utf8_decode : bytes -> option text) (utf8_encode : text -> bytes),
+  (forall a b, utf8_encode (a ++ b) = utf8_encode a ++ utf8_encode b) ->
+  (forall t, utf8_decode (utf8_encode t) = Some t) ->
+  forall (F : text) (l : fsys) (ins : list gen_input) (l' : fsys) (ks : list text) (w : world),
+  fs_get l F = None -> ins <> [] ->
+  gen_history P (k_lock P) (k_encode_pk P) utf8_decode utf8_encode F l ins = Some (l', ks) ->
+  Forall (fun i => bytes_ok (gi_sk i) /\ bytes_ok (gi_salt i)) ins ->
+  fs w = l' ->
+  exists es : list entry, ks = map entry_text es /\
+    Forall2 (fun (i : gen_input) (e : entry) => exists pw : bytes,
+        (if gi_env_pass i then gi_env_password i else None) = Some pw /\ length (gi_sk i) = 32%nat /\
+        exists esk : text,
+          k_pub e = b64_encode (Keyring.pk_blob P (dh_pub P (gi_sk i))) /\ k_priv e = Some esk /\
+          Keyring.pk_string_ok (k_pub e) = true /\ val_ok (k_pub e) /\
+          Keyring.sk_string_ok esk = true /\ val_ok esk /\
+          Keyring.unlock_private_key P esk pw = Ok (gi_sk i) /\
+          Keyring.decode_public_key P (k_pub e) = Ok (dh_pub P (gi_sk i)) /\
+          valid_key_name (k_name e) = true /\ trim (k_name e) = k_name e) ins es /\
+    fs_get l' F = Some (utf8_encode (keyring_text es)) /\
+    (Forall (fun e => ~ In c_nl (k_name e)) es -> NoDup (map k_name es) -> NoDup (map k_pub es) ->
+     resolve_keyring Keyring.pk_string_ok Keyring.sk_string_ok utf8_decode w (Some F) = inr es).
+Proof. exact gen_history_all_keys_usable_fresh. Qed.
+Print Assumptions C14_history_all_keys_usable_fresh.
+
+(* the code BEFORE the repair: an existing F ends up holding only "\n" ++ the new key *)
+Theorem C14_gen_key_legacy_forgets :
+  forall (P : prims) (lock : bytes -> bytes -> bytes -> text) (encode_pk : bytes -> text)
+         (utf8_decode : bytes -> option text) (utf8_encode : text -> bytes)
+         (w : world) (o : gen_opts) (sk salt : bytes) (F : text) (c0 : bytes),
+  go_outfile o = Some F -> fs_get (fs w) F = Some c0 ->
+  is_success (status (gen_key_legacy P lock encode_pk utf8_decode utf8_encode w o sk salt)) = true ->
+  exists key_text, gen_plan P lock encode_pk utf8_decode w o sk salt = inr key_text /\
+    fs_get (new_fs (gen_key_legacy P lock encode_pk utf8_decode utf8_encode w o sk salt)) F
+      = Some (key_bytes_nl utf8_encode key_text).
+Proof. exact gen_key_legacy_forgets. Qed.
+Print Assumptions C14_gen_key_legacy_forgets.
+
+(* ... so the prefix property is FALSE for it: a concrete world (Model/CliStubs.v: F = a keyring with key "a";
+   generate "bob") in which the old content is not a prefix of the new one — while the repaired command keeps it *)
+Theorem C14_gen_key_legacy_refuted :
+  exists (w : world) (o : gen_opts) (sk salt : bytes) (F : text) (c0 : bytes),
+    go_outfile o = Some F /\ fs_get (fs w) F = Some c0 /\
+    status (s_gen_key_legacy w o sk salt) = SOk /\
+    (forall c1, fs_get (new_fs (s_gen_key_legacy w o sk salt)) F = Some c1 -> ~ bprefix c0 c1) /\
+    (exists c1, fs_get (new_fs (s_cmd_gen_key w o sk salt)) F = Some c1 /\ bprefix c0 c1).
+Proof. exact gen_key_legacy_refuted. Qed.
+Print Assumptions C14_gen_key_legacy_refuted.
